@@ -37,7 +37,7 @@ CHECKS_FOR = [   # first matching substring wins
     ("implementations/observers", ["C08", "C16", "C18"]),
     ("gnu_objdump_disassembler", ["C15", "C17", "C14"]),
     ("shell_disassembler", ["C15", "C17"]),
-    ("consumer", ["C07", "C11", "C12", "C10", "C08"]),
+    ("consumer", ["C07", "C11", "C12", "C10", "C08", "C20"]),
     ("matched_observers", ["C12", "C11", "C20", "C07"]),
     ("match.py", ["C12", "C18", "C15", "C14", "C17"]),
     ("global_definitions", ["C18", "C01", "C05", "C14", "C17", "C10"]),
@@ -198,6 +198,9 @@ def run_tests(wt):
     return set(BASE["stable_pass"]) <= passed
 
 
+ALL_CHECKS = None   # set by --all-checks: run every check (used to triage survivors)
+
+
 def evaluate(m, nproc):
     wt = tempfile.mkdtemp(prefix=f"mut_{m['id']}_", dir="/tmp")
     os.rmdir(wt)
@@ -224,7 +227,7 @@ def evaluate(m, nproc):
             return rec
         rec["status"] = "survives-repo-tests"
         rec["checks"] = {}
-        for c in checks_for(m["file"]):
+        for c in (ALL_CHECKS or checks_for(m["file"])):
             with tempfile.TemporaryDirectory() as ed:
                 env = dict(os.environ, JASM_REPO=wt, VERIF_EVIDENCE_DIR=ed, VERIF_REPLAY_DIR=os.path.join(ed, "replays"))
                 try:
@@ -254,7 +257,14 @@ def main():
     ap.add_argument("--jobs", type=int, default=4)
     ap.add_argument("--only-file", default=None)
     ap.add_argument("--ids", default=None)
+    ap.add_argument("--all-checks", action="store_true")
+    ap.add_argument("--out", default=None)
     a = ap.parse_args()
+    global ALL_CHECKS, RESULTS
+    if a.all_checks:
+        ALL_CHECKS = [f"C{i:02d}" for i in (20, 17, 12, 14, 7, 11, 1, 2, 3, 4, 5, 6, 8, 9, 10, 13, 15, 16, 18, 19)]
+    if a.out:
+        RESULTS = a.out
     ms = all_mutants(a.max_per_file, a.only_file)
     if a.ids:
         want = set(a.ids.split(","))
